@@ -1042,6 +1042,105 @@ fn random_graph_case(m: &mut Model, rep: &mut Report, r: &mut Rng, case_no: u64)
     rep.case(stream, if nontrivial { Some(&key) } else { None });
 }
 
+/// independent oracle: is `to` reachable from `from` along the edges (zero or more steps)?
+fn oracle_reach(edges: &BTreeSet<(u64, u64)>, from: u64, to: u64) -> bool {
+    let mut seen: BTreeSet<u64> = BTreeSet::new();
+    let mut todo = vec![from];
+    while let Some(x) = todo.pop() {
+        if x == to { return true; }
+        if seen.insert(x) {
+            for (a, b) in edges.iter() { if *a == x { todo.push(*b); } }
+        }
+    }
+    false
+}
+
+/// Frozen clock: add_wait / remove_transaction / remove_wait / clear / cleanup_stale_edges(ttl) /
+/// would_create_cycle on one WaitForGraph vs the model, image compared after every op.
+fn graph_ops2_case(m: &mut Model, rep: &mut Report, r: &mut Rng) {
+    let stream = "graph.ops2";
+    let n = 3 + r.below(5);
+    let max_edges = if r.chance(1, 4) { 1 + r.below(3) } else { 0 };
+    let g = WaitForGraph::with_max_edges_per_tx(max_edges as usize);
+    if m.ask(&format!("reset 3 {max_edges}")) != "ok" { rep.disagree(stream, json!({}), "ok", "reset refused"); return; }
+    let mut now = 1u64; // relative; 0 would tie with "absent" in victim selection
+    verif_clock::set_now_ms(Some(CO_BASE + now));
+    struct Reset;
+    impl Drop for Reset { fn drop(&mut self) { verif_clock::set_now_ms(None); } }
+    let _reset = Reset;
+    let mut trace: Vec<String> = Vec::new();
+    let (mut asked, mut stale_removed) = (0, 0);
+    for _ in 0..6 + r.below(22) {
+        let Some(before) = view(&g) else { return; };
+        let fwd_before: BTreeSet<(u64, u64)> = before.edges.iter().flat_map(|(k, vs)| vs.iter().map(move |x| (*k, *x))).collect();
+        let (imp, line): (String, String) = match r.below(100) {
+            0..=44 => {
+                let (w, h) = (1 + r.below(n), 1 + r.below(n));
+                let p = if r.chance(1, 4) { Some(r.below(5) as u32) } else { None };
+                g.add_wait(w, h, p);
+                ("ok".into(), format!("gadd {now} {w} {h} {}", p.map_or("-".to_string(), |x| x.to_string())))
+            }
+            45..=52 => { let tx = 1 + r.below(n); g.remove_transaction(tx); ("ok".into(), format!("grm {tx}")) }
+            53..=58 => { let (w, h) = (1 + r.below(n), 1 + r.below(n)); g.remove_wait(w, h); ("ok".into(), format!("grmw {w} {h}")) }
+            59..=60 => { g.clear(); rep.hit("graph2.clear"); ("ok".into(), "gclear".into()) }
+            61..=72 => {
+                let ttl = r.below(5);
+                let cnt = g.cleanup_stale_edges(ttl);
+                rep.hit(if cnt > 0 { "graph2.stale.removed" } else { "graph2.stale.none" });
+                stale_removed += cnt;
+                // oracle: exactly the waiters whose wait started more than ttl ago are gone, on both sides
+                let Some(after) = view(&g) else { return; };
+                for (tx, started) in &before.ws {
+                    let stale = (CO_BASE + now).saturating_sub(*started) > ttl;
+                    if (CO_BASE + now).saturating_sub(*started) == ttl { rep.hit("graph2.stale.boundary_elapsed_eq_ttl_kept"); }
+                    let present = after.edges.iter().any(|(k, vs)| k == tx || vs.contains(tx)) || after.reverse.iter().any(|(k, vs)| k == tx || vs.contains(tx)) || after.ws.iter().any(|x| x.0 == *tx);
+                    if stale && present {
+                        rep.violation("WaitForGraph.cleanup_stale_edges/stale_tx_remains", "a transaction whose wait is older than the ttl is still in the graph", json!({"trace": trace, "ttl": ttl, "tx": tx}));
+                    }
+                    if !stale && !after.ws.iter().any(|x| x.0 == *tx) {
+                        rep.violation("WaitForGraph.cleanup_stale_edges/fresh_tx_removed", "a transaction whose wait is not older than the ttl lost its wait start", json!({"trace": trace, "ttl": ttl, "tx": tx}));
+                    }
+                }
+                (cnt.to_string(), format!("gstale {now} {ttl}"))
+            }
+            73..=89 => {
+                let (w, h) = (1 + r.below(n), 1 + r.below(n));
+                let ans = g.would_create_cycle(w, h);
+                asked += 1;
+                rep.hit(if ans { "graph2.wcc.true" } else { "graph2.wcc.false" });
+                // oracle: true exactly when w == h or w is reachable from h; and then adding the edge closes a cycle
+                let want = w == h || oracle_reach(&fwd_before, h, w);
+                if ans != want {
+                    rep.violation("WaitForGraph.would_create_cycle/wrong_answer", "would_create_cycle disagrees with reachability holder ->* waiter", json!({"trace": trace, "waiter": w, "holder": h, "got": ans}));
+                }
+                let mut plus: Vec<(u64, u64)> = fwd_before.iter().copied().collect();
+                let acyclic_before = !oracle_has_cycle(&plus);
+                plus.push((w, h));
+                if w != h && acyclic_before && oracle_has_cycle(&plus) != ans {
+                    rep.violation("WaitForGraph.would_create_cycle/prevention_unsound", "on an acyclic graph the answer differs from whether adding the edge creates a cycle", json!({"trace": trace, "waiter": w, "holder": h, "got": ans}));
+                }
+                let line = format!("gwcc {w} {h}");
+                trace.push(line.clone());
+                let mo = m.ask(&line);
+                if !rep.compare(stream, || json!({"trace": trace}), &ans.to_string(), &mo) { return; }
+                continue;
+            }
+            _ => { let d = r.below(4); now += d; verif_clock::set_now_ms(Some(CO_BASE + now)); continue; }
+        };
+        trace.push(line.clone());
+        let Some(v) = view(&g) else { rep.disagree(stream, json!({"trace": trace}), "unparseable Debug", ""); return; };
+        let mo = m.ask(&line);
+        if !rep.compare(stream, || json!({"trace": trace}), &format!("{imp} | {}", graph_img(&v, CO_BASE)), &mo) { return; }
+        let fwd: BTreeSet<(u64, u64)> = v.edges.iter().flat_map(|(k, vs)| vs.iter().map(move |x| (*k, *x))).collect();
+        let rev: BTreeSet<(u64, u64)> = v.reverse.iter().flat_map(|(k, vs)| vs.iter().map(move |x| (*x, *k))).collect();
+        if fwd != rev {
+            rep.violation("WaitForGraph/reverse_index_diverged", "reverse_edges is not the transpose of edges", json!({"trace": trace}));
+        }
+    }
+    let key = trace.join(";");
+    rep.case(stream, if asked >= 1 && stale_removed >= 1 { Some(&key) } else { None });
+}
+
 // ------------------------------------------------------------------ lock manager + wait graph (`*_with_wait_*`)
 
 fn wait_variant_case(m: &mut Model, rep: &mut Report, r: &mut Rng) {
@@ -2335,6 +2434,36 @@ fn main() {
         random_graph_case(&mut m, &mut rep, &mut r, c);
     }
 
+    let mut r = root.fork("graph.ops2");
+    for _ in 0..600 * scale {
+        graph_ops2_case(&mut m, &mut rep, &mut r);
+    }
+    // would_create_cycle on every digraph on 4 transactions, every (waiter, holder) pair, against the model
+    {
+        let n = 4u64;
+        let pairs: Vec<(u64, u64)> = (1..=n).flat_map(|a| (1..=n).filter(move |b| *b != a).map(move |b| (a, b))).collect();
+        for code in 0u64..(1 << pairs.len()) {
+            let g = WaitForGraph::new();
+            let edge_list: Vec<(u64, u64)> = pairs.iter().enumerate().filter(|(i, _)| code >> i & 1 == 1).map(|(_, e)| *e).collect();
+            for (a, b) in &edge_list { g.add_wait(*a, *b, None); }
+            let eset: BTreeSet<(u64, u64)> = edge_list.iter().copied().collect();
+            let Some(v) = view(&g) else { break; };
+            let mut any = false;
+            for w in 1..=n { for h in 1..=n {
+                let ans = g.would_create_cycle(w, h);
+                any |= ans && w != h;
+                if ans != (w == h || oracle_reach(&eset, h, w)) {
+                    rep.violation("WaitForGraph.would_create_cycle/wrong_answer", "would_create_cycle disagrees with reachability holder ->* waiter", json!({"edges": edge_list, "waiter": w, "holder": h, "got": ans}));
+                }
+                if (code + w * 4 + h) % 3 == 0 {
+                    let mo = m.ask(&format!("xwcc {w} {h} {}", show_adj(&v.edges)));
+                    rep.compare("graph.wcc.exhaustive.n4", || json!({"edges": edge_list, "waiter": w, "holder": h}), &ans.to_string(), &mo);
+                }
+            } }
+            let key = format!("{code}");
+            rep.case("graph.wcc.exhaustive.n4", if any { Some(&key) } else { None });
+        }
+    }
     lap("graph.random");
     // ---- stream 6: lock manager + wait graph
     let mut r = root.fork("table+graph");
